@@ -168,8 +168,15 @@ def run(ctx):
             tree.write("mail/noheaders.mbox", b"From a@b Sat Jan  5 09:43:01 2002\n\nbody only\n\n")
             objs += [("/maild", "dir"), ("/maild/new", "dir"), ("/mail/noheaders.mbox", "dir"), ("/maild|/MAILDIR-MESSAGE/1", "file"),
                      ("/mail/noheaders.mbox|/MBOX-MESSAGE/1", "file")]
+            # files whose guessed type is in no strict MIME table (image/pict is a non-strict entry), and one with no type at all
+            tree.write("pics/old.pict", b"PICT\0\1")
+            tree.write("pics/older.pct", b"PICT\0\2")
+            tree.write("pics/noext", b"no extension\n")
+            objs += [("/pics/old.pict", "file"), ("/pics/older.pct", "file"), ("/pics/noext", "file")]
             kw = {}
             if listname == "full":
+                # ... and a default type an administrator made up
+                kw["GopherEntry|defaultmimetype"] = "application/x-unknown"
                 objs += trees.add_full_list_content(tree)
                 os.chmod(tree.path("hello.pyg"), 0o755)
                 tree.write("docs/two.pyg", trees.PYG_SRC.replace("pyg:", "second-script:").replace("pyg out", "second pyg"), mode=0o755)
